@@ -49,6 +49,9 @@ CATALOGUE = {
                                   "  chk1: if (n > 0) then\n    a(1) = 2\n  end if chk1\n  chk2: if (n > 0) then\n    a(1) = 3\n  end if chk2\n10 continue\n20 continue\nend subroutine q\n"),
     "block_data_units": "block data bd\n  common /c/ a, b\n  data a /1/, b /2/\nend block data bd\nblock data\n  common /d/ e\nend block data\n",
     "select_type_names": "subroutine st(obj)\n  class(*) :: obj\n  sel: select type (q => obj)\n  type is (integer) sel\n    k = 1\n  class is (tt) sel\n    k = 2\n  class default sel\n    k = 3\n  end select sel\nend subroutine st\n",
+    "comment_runs": ("subroutine cr(v, m)\n  ! one\n  ! two\n  real :: v(3)\n  logical :: m(3)\n  v = 0\n  ! three\n\n  ! four\n  where (m)\n    ! five\n    ! six\n    v = 1\n  elsewhere\n    v = 2\n  end where\n"
+                     "  ! seven\n  ! eight\n  if (v(1) > 0) then\n    ! nine\n    ! ten\n    v(1) = 0\n  end if\n  ! eleven\n  ! twelve\n  do i = 1, 3\n    v(i) = i\n  end do\n  ! thirteen\n  ! fourteen\n"
+                     "  select case (i)\n  ! fifteen\n  ! sixteen\n  case (1)\n    v = 3\n  end select\n  ! seventeen\n  ! eighteen\nend subroutine cr\n! nineteen\n! twenty\n"),
     "anonymous_main": "integer :: a, b(3)\nreal :: x\na = 1\nif (a > 0) then\n  b(a) = 2\nend if\ncall s(a)\nend\nsubroutine s(k)\n  integer :: k\n  k = k + 1\nend subroutine s\n",
 }
 F2008_EXTRA = {
@@ -308,6 +311,23 @@ def main(argv):
                     fail("comments#directive_node_exactly_for_directive_form", dict(comment=com, position=pos, source=src), dict(found=b, expected=want))
                 if str(keep) != str(proc):
                     fail("comments#directive_processing_changes_node_types_only", dict(comment=com, position=pos, source=src), dict(keep=str(keep)[:300], processed=str(proc)[:300]))
+        # a comment line between the lines of a continued statement: a directive exactly when it has the directive form
+        for com in comments:
+            src = "program p\n  real :: x\n  x = 1.0e-3 * &\n  %s\n       (i + 2) + &\n\n  %s\n       3\nend program p\n" % (com, com)
+            cases += 1
+            try:
+                keep = parse(src, "f2003", ignore_comments=False)
+                proc = parse(src, "f2003", ignore_comments=False, process_directives=True)
+            except BaseException as e:  # noqa
+                fail("comments#program_with_comment_parses", dict(comment=com, inside_continuation=True, source=src), "%s: %s" % (type(e).__name__, str(e)[:100]))
+                continue
+            a = [(type(n).__name__, str(n).strip()) for n in _walk11(keep, (F11.Comment, F11.Directive)) if str(n).strip()]
+            b = [(type(n).__name__, str(n).strip()) for n in _walk11(proc, (F11.Comment, F11.Directive)) if str(n).strip()]
+            want = [("Directive" if DIRECTIVE_FORM.match(com) else "Comment", com)] * 2
+            if a != [("Comment", com)] * 2:
+                fail("comments#kept_once_as_comment", dict(comment=com, inside_continuation=True, source=src), dict(found=a))
+            if b != want:
+                fail("comments#directive_node_exactly_for_directive_form", dict(comment=com, inside_continuation=True, source=src), dict(found=b, expected=want))
         # a trailing comment is never a directive, whatever its text (also with quote characters in it); the code in front of
         # it is quote-free here (a literal in front of it is the known finding KF-C11-D63)
         for com in ("!$omp atomic", "!$omp atomic  (don't reorder)", "!dir$ ivdep \"x\"", "! plain 'q'", "!$acc loop ! it's", "!gcc$ unroll 'n'"):
